@@ -83,6 +83,9 @@ func (c *Client) handlePacket(p pk.Packet) (err error) {
 			return PacketHandlerError{ID: packetID, Err: err}
 		}
 	}
+	if int(packetID) < 0 || int(packetID) >= len(c.Events.handlers) {
+		return // an id the protocol does not know: nothing is registered for it
+	}
 	for _, handler := range c.Events.handlers[packetID] {
 		err = handler.F(p)
 		if err != nil {
